@@ -436,6 +436,10 @@ def add_covariate_effect(
     cov_possible = {Expr.symbol(parameter)} | {
         Expr.symbol(f'{parameter}{col_name}') for col_name in model.datainfo.names
     }
+    if sset.find_assignment(covariate_effect.template.symbol) is not None:
+        # NOTE: The effect symbol is reused (nested effect of the same covariate): grouping
+        # would make the existing effect statement use the new effect
+        cov_possible = set()
 
     # NOTE: This is a heuristic that simplifies the NONMEM statements by
     # grouping multiple effect statements in a single statement.
